@@ -226,7 +226,9 @@ def drive_sweep(cs, scn, rec, seed, modes, max_steps=2500, after_goal=120):
                         if rng.random() < 0.1:
                             rec.genstep(e, None, sp, u)
                         elif held and rng.random() < 0.08:
-                            # a look-ahead from ANOTHER state right before the real step with the same action
+                            # a look-ahead from the current state, then one from ANOTHER state, right before the real
+                            # step with the same action and draw
+                            rec.genstep(e, None, sp, u)
                             rec.genstep(e, rng.choice(held), sp, u)
                         ev = rec.step(e, sp, u)
                         used += 1
